@@ -74,6 +74,8 @@ def run(prop, tier, seed):
                 nxt.append((sc, ev[k + 1:]))
         pending = nxt
     v.cov["traces_validated_against_impl"] = len(traces)
+    if prop == "C16":
+        nev += framing(v, d, drv, seed, tier)
     v.cov["evaluations"] = nev
     v.cov["distinct_nontrivial"] = len(frames)
     v.cov["rule"] = "every abstract case of %s (complete enumeration by TLC), %d seeded concrete representatives each; all are distinct cases" % (C["spec"], reps)
@@ -83,8 +85,57 @@ def run(prop, tier, seed):
     return v.finish()
 
 
+def framing(v, d, drv, seed, tier, only=None):
+    """C16, second half: bytes on the socket (Framing.tla) - every case of length prefix / payload / continuation on a
+    real connection.Conn: what reaches the reader, whether the connection survives, and bounded allocation."""
+    if only is None:
+        cases, w = vlib.tlc_enumerate(d, "FramingMC.tla", "FramingMC.cfg", timeout=300)
+        frames = [b[0]["frame"] for b in cases]
+        reps = 2 if tier == "quick" else 12
+        scen = [dict(sc=60000 + i, seed=seed * 7919 + 77 + i, steps=[dict(a="Frame", frame=f) for f in frames[i::4]], opt=dict(reps=reps)) for i in range(4)]
+    else:
+        frames, scen = [], [only]
+    sf, tf = os.path.join(d, "framing.json"), os.path.join(d, "framing.ndjson")
+    json.dump(scen, open(sf, "w"))
+    vlib.run_driver(drv, sf, tf, ["-workers", "4", "-stall", "120"], timeout=1500)
+    traces = vlib.read_traces(tf)
+    dead = [t for t in traces if t.get("dead")]
+    if dead:
+        raise vlib.Machinery("driver could not run %d framing scenarios: %s" % (len(dead), dead[0].get("note")))
+    pending = [(t["sc"], t["ev"]) for t in traces]
+    n = sum(len(ev) for _, ev in pending)
+    rounds = 0
+    while pending and rounds < 40:
+        rounds += 1
+        acc, hw, stats = vlib.tlc_validate(d, "FramingTrace.tla", "FramingTrace.cfg", [ev for _, ev in pending], timeout=600)
+        nxt = []
+        for i, (sc, ev) in enumerate(pending):
+            if i in acc:
+                continue
+            k = hw[i]
+            e = ev[k] if k < len(ev) else {}
+            obs = {k_: e[k_] for k_ in e if k_ not in ("frame", "a")}
+            v.classify(dict(cause="framing", frame=json.dumps(e.get("frame"), sort_keys=True)),
+                       "framing case %s: the connection did not do what Framing.tla fixes: observed %s" % (json.dumps(e.get("frame"), sort_keys=True), json.dumps(obs, sort_keys=True)[:300]),
+                       dict(scenario=dict(sc=sc, seed=seed, steps=[dict(a="Frame", frame=e.get("frame"))], opt=dict(reps=3)), event=e))
+            if k + 1 < len(ev):
+                nxt.append((sc, ev[k + 1:]))
+        pending = nxt
+    log("framing: %d cases, %d runs on a real connection" % (len(frames), n))
+    v.cov["framing_cases"], v.cov["framing_runs"] = len(frames), n
+    return n
+
+
 def replay(prop, path, seed):
     C = CASES[prop]
+    r0 = json.load(open(path))["replay"]
+    if r0["scenario"]["steps"] and r0["scenario"]["steps"][0].get("a") == "Frame":
+        v = vlib.Verdict(prop, "quick", seed)
+        d = vlib.scratch(prop.lower() + "r-")
+        vlib.prep_specs(d)
+        framing(v, d, vlib.build(C["drv"]), seed, "quick", only=r0["scenario"])
+        v.cov.update(states=1, transitions=1, evaluations=1, distinct_nontrivial=1, samples=["replay"])
+        return v.finish()
     v = vlib.Verdict(prop, "quick", seed)
     d = vlib.scratch(prop.lower() + "r-")
     vlib.prep_specs(d)
